@@ -415,6 +415,28 @@ func lemmaOriginRoundTrip(p []byte) ([]byte, int) {
 //@   prop C11
 //@   ensures is(out, GenBank) && sameslice(out.(GenBank).Table, ff) && out.(GenBank).Origin == gb.Origin
 //@   assigns nothing
+// WithTopology: the record itself with the topology replaced and nothing else touched - this is
+// what makes a slice of a circular record linear (C03) - and WithInfo: the record around new
+// GenBankFields metadata, or a plain sequence around any other metadata.
+//@ func (gb GenBank) WithTopology(t gts.Topology) (out gts.Sequence)
+//@   prop C03 C11
+//@   ensures is(out, GenBank) && out.(GenBank).Fields.Topology == t && sameslice(out.(GenBank).Table, gb.Table) && out.(GenBank).Origin == gb.Origin
+//@   ensures out.(GenBank).Fields.LocusName == gb.Fields.LocusName && out.(GenBank).Fields.Accession == gb.Fields.Accession && out.(GenBank).Fields.Version == gb.Fields.Version && out.(GenBank).Fields.Definition == gb.Fields.Definition && out.(GenBank).Fields.Molecule == gb.Fields.Molecule && out.(GenBank).Fields.Region == gb.Fields.Region && sameslice(out.(GenBank).Fields.References, gb.Fields.References)
+// (the frame is that of WithInfo, which it calls: nothing but the record's own Origin cell, and that
+// only on the branch WithTopology never takes)
+//@   assigns gb.Origin
+//@ func (gb GenBank) WithInfo(info any) (out gts.Sequence)
+//@   prop C03 C11
+//@   requires !is(info, GenBankFields) ==> !isnil(gb.Origin) && len(gb.Origin.Buffer) <= 1099511627776
+//@   requires !is(info, GenBankFields) && !gb.Origin.Parsed ==> 0 <= nres(len(gb.Origin.Buffer)) && len(gb.Origin.Buffer) == olen(nres(len(gb.Origin.Buffer)))
+//@   ensures other: !is(info, GenBankFields) ==> is(out, gts.BasicSequence)
+//@   ensures fields: is(info, GenBankFields) ==> is(out, GenBank) && sameslice(out.(GenBank).Table, gb.Table) && out.(GenBank).Origin == gb.Origin
+//@   assigns gb.Origin
+//@ func (gb GenBank) WithInfo@fields(info any) (out gts.Sequence)
+//@   prop C03 C11
+//@   requires is(info, GenBankFields)
+//@   ensures is(out, GenBank) && sameslice(out.(GenBank).Table, gb.Table) && out.(GenBank).Origin == gb.Origin && out.(GenBank).Fields == info.(GenBankFields)
+//@   assigns nothing
 //@ func (gb GenBank) WithBytes(p []byte) (out gts.Sequence)
 //@   prop C11
 //@   requires len(p) < 999999940
